@@ -23,7 +23,8 @@ ASSUMPTIONS = [
     'names equal to members of the snapshot type (dir(StaticResourceMap), __dict__, __weakref__, __slots__) are '
     'excluded, as the property says',
     'snapshot.__dict__ is not manipulated directly (that is not "setting an attribute")',
-    'the snapshot is compared right after creation (it is a snapshot)',
+    'the snapshot is compared with the source right after creation; afterwards the source is mutated and the '
+    'snapshot must keep yielding the same objects (it is a snapshot)',
 ]
 FINDINGS = {}
 
@@ -150,6 +151,34 @@ def mirror(snap, src, path, facts):
             viol('absent_name_is_present_in_snapshot', path=path + [name], how=how, value=repr(v))
 
 
+def observe(snap, src, path):
+    """{path tuple: (kind, object the snapshot yields by item access)} for every node mirrored at creation time"""
+    out = {}
+    for name in list(src.handles):
+        out[tuple(path + [name])] = ('handle', snap[name])
+        out[tuple(path + [name, '<get>'])] = ('get', snap.get(name))
+    for name, sub in src.maps.items():
+        s = snap[name]
+        out[tuple(path + [name])] = ('map', s)
+        out.update(observe(s, sub, path + [name]))
+    return out
+
+
+def observe_paths(snap, before):
+    out = {}
+    for path in before:
+        cur = snap
+        if path[-1] == '<get>':
+            for n in path[:-2]:
+                cur = cur[n]
+            out[path] = cur.get(path[-2])
+        else:
+            for n in path:
+                cur = cur[n]
+            out[path] = cur
+    return out
+
+
 def snapshots(snap, src, out):
     out.append((snap, src))
     for name, sub in src.maps.items():
@@ -186,6 +215,35 @@ def run_case(case):
             viol('mutation_of_snapshot_did_not_raise', how='assignment statement', name='fresh_attribute')
     facts['mutation_attempts'] = attempts
     mirror(snap, root, [], facts)
+    # it is a SNAPSHOT: what it yields does not move when the source map is changed afterwards
+    before = observe(snap, root, [])
+    all_maps = [m for (_s, m) in nodes]
+    for k, nd in enumerate(case['nodes'][:6]):
+        m = all_maps[nd['parent'] % len(all_maps)]
+        names = list(m.handles) + list(m.maps)
+        if not names:
+            continue
+        name = names[nd['name'] % len(names)]
+        try:
+            if k % 3 == 0:
+                m[name] = desper.ResourceMap() if name in m.handles else UH()     # the name changes kind
+            elif k % 3 == 1:
+                m[name + '/inner'] = UH()           # a handle name becomes a map / a map gains a child
+            else:
+                m.clear()
+        except Exception as exc:
+            viol('mutating_the_source_map_raised', exception=repr(exc))
+        facts['source_mutated_after_snapshot'] += 1
+    if facts['source_mutated_after_snapshot']:
+        try:
+            after = observe_paths(snap, before)
+        except PropertyViolation:
+            raise
+        except Exception as exc:
+            viol('snapshot_changed_when_the_source_map_was_mutated', exception=repr(exc))
+        for path, (kind, obj) in before.items():
+            if after[path] is not obj:
+                viol('snapshot_changed_when_the_source_map_was_mutated', path=path, kind=kind)
     nontrivial = (facts['mixed_names_in_one_map'] and facts['max_depth'] >= 1
                   and (facts['layered_handle'] or facts['underscore_identifier']))
     return {'nontrivial': bool(nontrivial), 'classes': sorted(k for k, v in facts.items() if v and k != 'mutation_attempts'),
